@@ -260,3 +260,71 @@ Qed.
 Example embedded_second_generation_declares_the_external :
   declared_of true {| ld_locals := ["Pet"%string]; ld_external := ["Ext"%string] |} ["Ext"%string] 3 = [[]; ["Ext"%string]; ["Ext"%string]].
 Proof. reflexivity. Qed.
+
+(** * The ErrorOnly shape *)
+Lemma error_only_fails_iff : forall (K V A E : Type) (f : K -> V -> res A E) merge l acc,
+  (exists e, error_only f merge l acc = RErr e) <-> existsb (fails f) l = true.
+Proof.
+  intros K V A E f merge l. induction l as [|[k v] r IH]; intros acc; cbn [error_only existsb].
+  - split; [intros [e H]; discriminate H|discriminate].
+  - unfold fails at 1. cbn [fst snd]. destruct (f k v) as [x|e] eqn:Ef; cbn [orb].
+    + apply IH.
+    + split; [reflexivity|intros _; exists e; reflexivity].
+Qed.
+
+(** whether the loop fails does not depend on the iteration order *)
+Lemma error_only_failure_perm : forall (K V A E : Type) (f : K -> V -> res A E) merge l l' acc acc',
+  Permutation l l' ->
+  ((exists e, error_only f merge l acc = RErr e) <-> (exists e, error_only f merge l' acc' = RErr e)).
+Proof.
+  intros K V A E f merge l l' acc acc' Hp. rewrite !error_only_fails_iff.
+  assert (H : existsb (fails f) l = existsb (fails f) l').
+  { induction Hp as [|x l1 l2 _ IH|x y l1|l1 l2 l3 _ IH1 _ IH2]; cbn [existsb].
+    - reflexivity.
+    - rewrite IH. reflexivity.
+    - destruct (fails f x), (fails f y); reflexivity.
+    - rewrite IH1. exact IH2. }
+  rewrite H. reflexivity.
+Qed.
+
+(** the error it returns is an error of some entry *)
+Lemma error_only_error_of_an_entry : forall (K V A E : Type) (f : K -> V -> res A E) merge l acc e,
+  error_only f merge l acc = RErr e -> exists k v, In (k, v) l /\ f k v = RErr e.
+Proof.
+  intros K V A E f merge l. induction l as [|[k v] r IH]; intros acc e H; cbn [error_only] in H; [discriminate H|].
+  destruct (f k v) as [x|e'] eqn:Ef.
+  - destruct (IH _ _ H) as [k' [v' [Hin Hf]]]. exists k', v'. split; [right; exact Hin|exact Hf].
+  - inversion H; subst. exists k, v. split; [left; reflexivity|exact Ef].
+Qed.
+
+(** so, when the error text does not say WHICH entry failed, it is the same text in every iteration order *)
+Theorem error_only_uniform_error : forall (K V A E : Type) (f : K -> V -> res A E) merge l l' acc acc' e0 e e',
+  (forall k v x, f k v = RErr x -> x = e0) -> Permutation l l' ->
+  error_only f merge l acc = RErr e -> error_only f merge l' acc' = RErr e' -> e = e'.
+Proof.
+  intros K V A E f merge l l' acc acc' e0 e e' Hu _ H H'.
+  destruct (error_only_error_of_an_entry _ _ _ _ _ _ _ _ _ H) as [k [v [_ Hf]]].
+  destruct (error_only_error_of_an_entry _ _ _ _ _ _ _ _ _ H') as [k' [v' [_ Hf']]].
+  rewrite (Hu _ _ _ Hf), (Hu _ _ _ Hf'). reflexivity.
+Qed.
+
+(** an error that NAMES the failing entry depends on the iteration order as soon as two entries fail *)
+Theorem error_naming_the_entry_refuted :
+  exists (f : nat -> unit -> res unit nat) l l', Permutation l l' /\
+    error_only f (fun a _ => a) l tt <> error_only f (fun a _ => a) l' tt.
+Proof.
+  exists (fun k _ => RErr k), [(1, tt); (2, tt)], [(2, tt); (1, tt)]. split; [apply perm_swap|].
+  cbn. discriminate.
+Qed.
+
+(** when no entry fails, the accumulated value is the fold of the merges; with a merge whose order of application does not
+    show (set / map union) it does not depend on the iteration order either *)
+Lemma error_only_success : forall (K V A E : Type) (f : K -> V -> res A E) merge l acc r,
+  error_only f merge l acc = ROk r ->
+  exists xs, Forall2 (fun kv x => f (fst kv) (snd kv) = ROk x) l xs /\ r = fold_left merge xs acc.
+Proof.
+  intros K V A E f merge l. induction l as [|[k v] t IH]; intros acc r H; cbn [error_only] in H.
+  - inversion H; subst. exists []. split; [constructor|reflexivity].
+  - destruct (f k v) as [x|e] eqn:Ef; [|discriminate H].
+    destruct (IH _ _ H) as [xs [HF Hr]]. exists (x :: xs). split; [constructor; [exact Ef|exact HF]|exact Hr].
+Qed.
